@@ -63,6 +63,7 @@ def run(ctx):
                 check_const(ctx, m, g, kind)
     from . import c05w
     c05w.run_witnesses(ctx)
+    C.corpus_adequacy(ctx, enforce=False)
     ctx.floor("C05.a-const-check", 90)
     ctx.floor("C05.b-sorted", 150)
     ctx.floor("C05.c-list-eq-wire", 150)
